@@ -25,9 +25,13 @@ fn total_output(text: &str) -> u64 {
 }
 
 fn l0_counters(o: &mut Out, name: &str, bytes: &[u8], sc: &[usize], opts: Opts) {
-    o.mark(&format!("l0 {} {} {:?} {}", opts.bits(), name, sc, hex(bytes)));
+    l0_counters_lim(o, name, bytes, sc, opts, None)
+}
+
+fn l0_counters_lim(o: &mut Out, name: &str, bytes: &[u8], sc: &[usize], opts: Opts, limit: Option<usize>) {
+    o.mark(&format!("l0 {} {} {:?} limit={:?} {}", opts.bits(), name, sc, limit, if bytes.len() < 5000 { hex(bytes) } else { format!("(len {})", bytes.len()) }));
     let pieces = split_sched(bytes, sc);
-    let r = run_l0(&pieces, opts, None);
+    let r = run_l0(&pieces, opts, limit);
     o.direct_checks += 1;
     let out = total_output(&r.text);
     let bound = A * bytes.len() as u64 + B * out + C;
@@ -45,12 +49,16 @@ fn l0_counters(o: &mut Out, name: &str, bytes: &[u8], sc: &[usize], opts: Opts) 
 
 /// Reader-level: count fill_buf calls / zero-byte consumes while decoding by the given path
 fn reader_counters(o: &mut Out, name: &str, bytes: &[u8], sc: &[usize], path: u32) {
-    o.mark(&format!("reader path={} {} {:?} {}", path, name, sc, hex(bytes)));
+    reader_counters_lim(o, name, bytes, sc, path, None)
+}
+
+fn reader_counters_lim(o: &mut Out, name: &str, bytes: &[u8], sc: &[usize], path: u32, limit: Option<usize>) {
+    o.mark(&format!("reader path={} {} {:?} limit={:?} {}", path, name, sc, limit, if bytes.len() < 5000 { hex(bytes) } else { format!("(len {})", bytes.len()) }));
     let pr = PieceReader::new(bytes.to_vec(), sc);
     let (fills, zruns) = (pr.fills.clone(), pr.max_zero_run.clone());
     let mut produced: u64 = 0;
     let res = guarded(|| -> String {
-        let mut rd = match open_decoder(pr, Opts::default(), 0, None).read_info() {
+        let mut rd = match open_decoder(pr, Opts::default(), 0, limit).read_info() {
             Ok(r) => r,
             Err(e) => return res_err(&e),
         };
@@ -168,6 +176,43 @@ pub fn run(a: &Args) {
             let r = run_l0(&pieces, opts, None);
             let sizes = sc.iter().map(|x| x.to_string()).collect::<Vec<_>>().join(",");
             o.case(&format!("l0 {} {} {} {}", opts.bits(), 67108864u64, sizes, hex(bytes)), &strip_d(&r.text), &format!("{}-{}", kind, r.text.len() % 211), bytes.len() > 33);
+        }
+    }
+    // chunk bodies larger than the allocation budget: LimitsExceeded, not an endless PartialChunk loop
+    for &n in &[40000usize, 100000] {
+        let mut chunks = vec![ihdr(2, 2, 8, 0, 0), Chunk::new(if n > 50000 { b"prVt" } else { b"eXIf" }, vec![5u8; n])];
+        chunks.push(Chunk::new(b"IDAT", zlib_stored(&[0, 1, 2, 0, 3, 4], 3)));
+        chunks.push(Chunk::new(b"IEND", vec![]));
+        let f = assemble(&chunks);
+        for &lim in &[1usize, 1000, 32768, 33000, 60000] {
+            o.count("files.bigchunk-limited");
+            for sc in [vec![0usize], vec![1], vec![4096]].iter() {
+                l0_counters_lim(&mut o, &format!("bigchunk{}-limit{}", n, lim), &f, sc, Opts::default(), Some(lim));
+                for path in 0..3 {
+                    reader_counters_lim(&mut o, &format!("bigchunk{}-limit{}", n, lim), &f, sc, path, Some(lim));
+                }
+            }
+        }
+    }
+    // bytes after the end of the zlib stream, in the same IDAT and in further IDAT chunks
+    for variant in 0..4 {
+        let z = zlib_stored(&[0, 1, 2, 0, 3, 4], 6);
+        let mut chunks = vec![ihdr(2, 2, 8, 0, 0)];
+        match variant {
+            0 => { let mut d = z.clone(); d.extend_from_slice(&[9, 9, 9]); chunks.push(Chunk::new(b"IDAT", d)); }
+            1 => { chunks.push(Chunk::new(b"IDAT", z.clone())); chunks.push(Chunk::new(b"IDAT", vec![1, 2, 3, 4, 5])); }
+            2 => { chunks.push(Chunk::new(b"IDAT", z[..5].to_vec())); let mut d = z[5..].to_vec(); d.extend(vec![7u8; 300]); chunks.push(Chunk::new(b"IDAT", d)); chunks.push(Chunk::new(b"IDAT", vec![0u8; 40])); }
+            _ => { chunks.push(actl_chunk(2, 0)); chunks.push(fctl_chunk(0, 2, 2, 0, 0, 1, 1, 0, 0)); chunks.push(Chunk::new(b"IDAT", z.clone())); chunks.push(fctl_chunk(1, 2, 2, 0, 0, 1, 1, 0, 0));
+                   let mut d = z.clone(); d.extend_from_slice(&[1, 1, 1, 1]); chunks.push(fdat_chunk(2, &d)); chunks.push(fdat_chunk(3, &[8, 8])); }
+        }
+        chunks.push(Chunk::new(b"IEND", vec![]));
+        let f = assemble(&chunks);
+        o.count("files.data-after-zlib-end");
+        for sc in [vec![0usize], vec![1], vec![3], vec![16]].iter() {
+            l0_counters(&mut o, &format!("after-zlib-end-{}", variant), &f, sc, Opts::default());
+            for path in 0..3 {
+                reader_counters(&mut o, &format!("after-zlib-end-{}", variant), &f, sc, path);
+            }
         }
     }
     // decompression bombs: work must stay linear in input + output
